@@ -224,6 +224,36 @@ pub fn check(tier: Tier) -> i32 {
 			completed.push(format!("grammar={} len<={} opt={} sequences={}", g.name, g.max_len, opt.name, lists.len()));
 		}
 	}
+	// --- deep-level part: tables pushed below an empty level (3 and 4 levels), then more flushes /
+	// compactions whose value-log clean-up must still see the files those deep tables point into ---
+	if all_complete {
+		let deep = Grammar {
+			name: "deep-levels",
+			max_len: if tier == Tier::Quick { 7 } else { 9 },
+			max_w: 3,
+			max_p: if tier == Tier::Quick { 5 } else { 6 },
+			max_r: 0,
+			writes: vec![(Kind::Set, b"a"), (Kind::Set, b"b")],
+			phys: vec![Phys::FlushAll, Phys::Compact],
+			max_readers: 0,
+			cursors: false,
+			pending: false,
+			ro_readers: false,
+			sizes: vec![200],
+		};
+		let deep_budget = Budget::new(if tier == Tier::Quick { 12.0 } else { 300.0 });
+		let lists = generate(&deep);
+		samples.push(json!({"grammar": deep.name, "count": lists.len(), "example": ops_short(&lists[lists.len() * 2 / 3]).chars().take(300).collect::<String>()}));
+		for opt in [OptSet::base("L3-vlog8-64-cache0").levels(3).with_vlog(8, 64).cache(0), OptSet::base("L4-vlog8-64-cache0").levels(4).with_vlog(8, 64).cache(0)] {
+			let done = run_world_space(&mut report, &mut stats, &opt, &lists, &PROBE, &deep_budget, &classify);
+			if !done {
+				all_complete = false;
+				completed.push(format!("grammar={} opt={}: time cap, not complete", deep.name, opt.name));
+				break;
+			}
+			completed.push(format!("grammar={} len<={} (<= {} physical operations) opt={} sequences={}", deep.name, deep.max_len, deep.max_p, opt.name, lists.len()));
+		}
+	}
 	eprintln!("C11: world part done at {:.1}s", budget.elapsed());
 	// --- history part: every version of every key through the value log (time-travel reads) ---
 	let hist_budget = Budget::new(if tier == Tier::Quick { 8.0 } else { 300.0 });
